@@ -84,3 +84,9 @@ def cases(tier, seed, ctx=None):
                b"00000000002-00000000005", b"000000000000-0"):
         for size in (4, 10, -1):
             yield ("range", [1, st, size], "zero-padded")
+    # well-formed shapes whose digits belong to other scripts (Arabic-Indic, Devanagari, fullwidth, mixed with ASCII): not numbers
+    D = {"a": "\u0663", "b": "\u0665", "c": "\u096b", "d": "\uff13"}
+    for st in ("a-b", "a-", "-b", "3-b", "a-5", "c-d", "1d-2", "d-", "-c"):
+        u = "".join(D.get(ch, ch) for ch in st).encode("utf-8")
+        for size in (100, -1):
+            yield ("range", [6, u, size], "digits-of-other-scripts")
